@@ -357,6 +357,10 @@ func (p *rawPeer) Synchronize(ctx context.Context, req *api.SynchronizeRequest) 
 	p.record(Call{Kind: "Synchronize"})
 	p.settle()
 	p.extras(phaseInSynchronize, true)
+	if p.spec.Stall == stallSyncHang {
+		<-p.release // ignores its context: never answers while the case runs
+		return nil, errors.New("verif: released at teardown")
+	}
 	if p.spec.Stall == stallSyncErr {
 		return nil, answerError(p.spec, "to synchronize")
 	}
